@@ -89,6 +89,23 @@ where
     let one = T::one();
     ensure_eq_r!(one.transform_point(p), p, "one-point", "{}: one() moves a point", who);
     ensure_eq_r!(one.transform_vector(v), v, "one-vector", "{}: one() changes a vector", who);
+    // the identity through One's provided methods, and as a neutral element of every composition form
+    {
+        let mut r = *t;
+        num_traits::One::set_one(&mut r);
+        ensure_eq_r!(r, one, "set_one", "{}: set_one() does not give one()", who);
+        ensure_eq_r!(r.transform_point(p), p, "set_one-point", "{}: a transform reset with set_one() moves a point", who);
+        ensure_r!(num_traits::One::is_one(&one) && num_traits::One::is_one(&r), "is_one", "{}: one().is_one() is false", who);
+        ensure_eq_r!(num_traits::One::is_one(t), *t == one, "is_one-iff", "{}: is_one() differs from == one()", who);
+        ensure_eq_r!(t.concat(&one), *t, "one-right-neutral", "{}: concat(t, one()) != t", who);
+        ensure_eq_r!(one.concat(t), *t, "one-left-neutral", "{}: concat(one(), t) != t", who);
+        let mut r = *t;
+        r.concat_self(&one);
+        ensure_eq_r!(r, *t, "one-neutral-concat_self", "{}: t.concat_self(one()) != t", who);
+        let mut r = one;
+        r.concat_self(t);
+        ensure_eq_r!(r, *t, "one-neutral-concat_self-left", "{}: one().concat_self(t) != t", who);
+    }
     if affine {
         ensure_eq_r!(c.transform_vector(v), s.transform_vector(t.transform_vector(v)), "concat-vector", "{}: concat(s,t)(v) vs s(t(v))", who);
         ensure_eq_r!(
